@@ -140,3 +140,63 @@ def mk_conditional(kind, rng, R, Dy, Dx, kappa=None, zero_M=False, Du=2):
         kw = {"u": J(u)}
         return obj, Truth(M=M, b=b, Sigma=np.tile(Sig, (R, 1, 1))), kw
     raise KeyError(kind)
+
+
+APPROX_KINDS = ("lrbf", "lsem", "het_exp", "het_cosh", "het_step", "het_relu")
+HET_KINDS = ("het_exp", "het_cosh", "het_step", "het_relu")
+
+
+def mk_approx(kind, rng, Dy, Dx, Dk, Da=None, wscale=0.6, kappa=None, zero_w=False):
+    """approximate conditionals. returns (obj, Truth)."""
+    L = lib()
+    A_ = L.approx
+    if kind in ("lrbf", "lsem"):
+        Sig = gen.spd_batch(rng, 1, Dy, kappa)
+        M = gen.vec(rng, 1, Dy, Dx + Dk, scale=0.8)
+        b = gen.vec(rng, 1, Dy)
+        if kind == "lrbf":
+            centers = gen.vec(rng, Dk, Dx, scale=1.0)
+            ls = rng.uniform(0.7, 2.0, (Dk, Dx))
+            obj = A_.LRBFGaussianConditional(M=J(M), b=J(b), mu=J(centers), length_scale=J(ls),
+                                             Sigma=J(Sig))
+            return obj, Truth(M=M, b=b, Sigma=Sig, centers=centers, length_scale=ls, Dk=Dk)
+        W = gen.vec(rng, Dk, Dx + 1, scale=wscale)
+        W[:, 0] = rng.uniform(0.3, 1.2, Dk) * rng.choice([-1.0, 1.0], Dk)  # non-zero offsets
+        obj = A_.LSEMGaussianConditional(M=J(M), b=J(b), W=J(W), Sigma=J(Sig))
+        return obj, Truth(M=M, b=b, Sigma=Sig, W=W, Dk=Dk)
+    cls = {"het_exp": A_.HeteroscedasticExpConditional,
+           "het_cosh": A_.HeteroscedasticCoshM1Conditional,
+           "het_step": A_.HeteroscedasticHeavisideConditional,
+           "het_relu": A_.HeteroscedasticReLUConditional}[kind]
+    Da = Da or Dy
+    # A with bounded singular values so that AA' stays inside the domain guard
+    A = gen.lin_map(rng, 1, Dy, Da, smin=0.5, smax=2.0)
+    M = gen.lin_map(rng, 1, Dy, Dx)
+    b = gen.vec(rng, 1, Dy)
+    W = gen.vec(rng, Dk, Dx + 1, scale=wscale)
+    W[:, 0] = rng.uniform(0.2, 0.8, Dk) * rng.choice([-1.0, 1.0], Dk)
+    if zero_w:
+        W[:, 1:] = 0.0
+    obj = cls(M=J(M), b=J(b), A=J(A), W=J(W))
+    return obj, Truth(M=M, b=b, A=A, W=W, Dk=Dk, Da=Da, kind=kind)
+
+
+def het_link(kind, h):
+    if kind == "het_exp":
+        return np.exp(h)
+    if kind == "het_cosh":
+        return np.cosh(h) - 1.0
+    if kind == "het_step":
+        return (h >= 0).astype(float)
+    if kind == "het_relu":
+        return np.maximum(h, 0.0)
+    raise KeyError(kind)
+
+
+def het_cov(t, x):
+    """oracle covariance AA' + A_k diag(link(Wx+w0)) A_k' at points x [N,Dx] -> [N,Dy,Dy]."""
+    A = t.A[0]
+    h = x @ t.W[:, 1:].T + t.W[:, 0][None]
+    d = het_link(t.kind, h)  # N Dk
+    Ak = A[:, : t.Dk]
+    return (A @ A.T)[None] + np.einsum("ik,nk,jk->nij", Ak, d, Ak)
